@@ -73,6 +73,16 @@ pub fn run(case: &Value, ctx: &Ctx) -> Outcome {
                 || format!("text/damage/cli-{}{}", args[0], if r.panicked() { "-panic" } else if r.ok() { "-accepted" } else { "" }),
                 || json!({"code": r.code, "stderr": r.stderr, "stdout": String::from_utf8_lossy(&r.stdout), "text": String::from_utf8_lossy(&text)}));
         }
+        // the same damaged file arriving in two bursts, the second one holding its last token (a reader that stops at the
+        // first short read may have seen a well-formed file by then)
+        let body_end = text.iter().rposition(|b| !b.is_ascii_whitespace()).map_or(0, |p| p + 1);
+        if let Some(cut) = text[..body_end].iter().rposition(|b| b.is_ascii_whitespace()) {
+            let args = &subs[(id % 3) as usize];
+            let r = cli::sfs_delayed(ctx, args, &text, cut + 1);
+            out.check(!r.ok() && !r.panicked() && r.stdout.is_empty(),
+                || format!("text/damage/cli-late-{}{}", args[0], if r.panicked() { "-panic" } else if r.ok() { "-accepted" } else { "" }),
+                || json!({"code": r.code, "stderr": r.stderr, "stdout": String::from_utf8_lossy(&r.stdout), "text": String::from_utf8_lossy(&text), "first_burst": cut + 1}));
+        }
     }
     out
 }
